@@ -37,11 +37,12 @@ def main(run: Run):
     run.assumptions += BASE_ASSUMPTIONS_L1
     run.assumptions += ["self and the window argument are distinct objects (a map added to itself is outside the property's domain)",
                         "an object is not both a wiring.Component and a MemoryMap; id() of a new object differs from every registered id",
-                        "the quantified pow2 axioms are proved in Lean 4/Mathlib (lemmas/Pow2.lean); `x & (x-1)` is an arbitrary non-negative integer (no bit-level lemma is trusted)",
+                        "the quantified pow2 axioms are proved in Lean 4/Mathlib (lemmas/Pow2.lean); `x & (x-1)` is an arbitrary non-negative integer except in the "
+                        "wf-align obligations, where a ground instance of Align.lean pow2_test_dvd (Lean core: and_sub_one_eq_zero_iff_isPowerOfTwo) is used",
                         "_Namespace availability is an uninterpreted predicate here (its semantics is property C18)"]
     run.trusted_base += ["pyvc VC generator (vf/pyvc/engine.py)", "z3 5.1 / cvc5 1.0", "Lean 4.33 + Mathlib for the arithmetic lemma library",
                          "CPython cross-check of the engine's path summaries (vf/pyvc/crosscheck.py)"]
-    discharge_all(run, obs, timeout_ms=30000)
+    discharge_all(run, obs, timeout_ms=40000)
     # engine validation against CPython (every run): disagreement = engine fault (exit 3), never a violation
     from ..pyvc.crosscheck import crosscheck_memory
     from ..common import EngineFault
@@ -55,7 +56,7 @@ def main(run: Run):
     for o in obs[:6]:
         run.sample(f"{o.fn}::{o.clause}::{o.label}")
     from ..lean_check import status as _lean_status
-    run.extra["lean_lemmas"] = {"files": _lean_status(), "used": "Pow2.lean: pow2_pos, pow2_mono_dvd, align_up_spec, least_multiple_unique, clog2_spec"}
+    run.extra["lean_lemmas"] = {"files": _lean_status(), "used": "Pow2.lean: pow2_pos, pow2_mono_dvd, align_up_spec, least_multiple_unique, clog2_spec; Align.lean: int_aligned_coarser, pow2_test_dvd (ground instances in the wf-align obligations)"}
     for _f, _st in run.extra["lean_lemmas"]["files"].items():
         if _st != "accepted":
             run.assumptions.append(f"Lean lemma file {_f} is '{_st}': the SMT axioms it backs are TRUSTED in this run")
